@@ -61,7 +61,8 @@ TECHNIQUE = "reference-model monitor (Sequence, nested getters, context model) +
 
 _BASE_TYPES = ["coordinate", "particle", "detector", "energy", "region", "channel", "t7",
                "kind8", "xx", "momentum"]
-TYPES = _BASE_TYPES + [b + s for s in ("_2", "B", "3") for b in _BASE_TYPES]
+TYPES = _BASE_TYPES + [b + s for s in ("_2", "B", "3") for b in _BASE_TYPES] + \
+    ["particle.lepton", "v1.0", "det-2", "coord sys", "évènement"]   # any non-empty string
 GETTERS = ["inc", "dbl", "neg", "sq", "half", "add10", "mod3", "id"]
 START_KINDS = ["bare", "bare-tuple", "empty-context", "context-tree", "untyped-variable",
                "typed-variable", "typed-variable-with-compose"]
@@ -70,8 +71,10 @@ START_KINDS = ["bare", "bare-tuple", "empty-context", "context-tree", "untyped-v
 def rand_attrs(rng):
     out = {}
     for _ in range(rng.choice([0, 0, 1, 1, 2, 3])):
-        k = rng.choice(["latex_name", "unit", "range", "opts", "weight"])
-        out[k] = {"latex_name": rng.choice(["x_1", "E^+", "\\\\phi"]),
+        k = rng.choice(["latex_name", "unit", "range", "opts", "weight", "run", "fill"])
+        out[k] = {"run": rng.choice([1234, "2023a"]),      # attributes named like methods of
+                  "fill": 7,                               # elements: still plain attributes
+                  "latex_name": rng.choice(["x_1", "E^+", "\\\\phi"]),
                   "unit": rng.choice(["cm", "keV", "m"]),
                   "range": [rng.randint(-5, 0), rng.randint(1, 9)],
                   "opts": {"log": True, "bins": [1, 2, {"deep": rng.randint(0, 3)}]},
@@ -200,15 +203,34 @@ def build_var(vr):
         return lena.variables.Variable(vr[1], gen.DATA_FUNCS[vr[2]], **kw)
     if k == "compose":
         kw = {"name": vr[2]} if vr[2] else {}
-        return lena.variables.Compose(*[build_var(x) for x in vr[1]], **kw)
+        parts = [build_var(x) for x in vr[1]]
+        return _construct(lena.variables.Compose, parts, kw, vr)
     if k == "combine":
         kw = {}
         if vr[2]:
             kw["name"] = vr[2]
         if vr[3]:
             kw["type"] = vr[3]
-        return lena.variables.Combine(*[build_var(x) for x in vr[1]], **kw)
+        parts = [build_var(x) for x in vr[1]]
+        return _construct(lena.variables.Combine, parts, kw, vr)
     raise AssertionError(vr)
+
+
+CONSTRUCTION_CHANGES = []      # drained by run_case
+
+
+def _construct(cls, parts, kw, vr):
+    """Build a Compose / Combine; building it must not change the variables it is made of
+    (they may be used on their own, or in another composition, afterwards)."""
+    before = [copy.deepcopy(q.var_context) for p in parts for q in all_vars(p)]
+    made = cls(*parts, **kw)
+    after = [q.var_context for p in parts for q in all_vars(p)]
+    if before != after:
+        bad = next((b, a) for b, a in zip(before, after) if b != a)
+        CONSTRUCTION_CHANGES.append(
+            "constructing %s from %r changed the var_context of one of its variables from %r "
+            "to %r" % (cls.__name__, vr[1], bad[0], bad[1]))
+    return made
 
 
 def all_vars(v):
@@ -608,6 +630,7 @@ MAX_PER_MECH = 4   # the worker keeps at most 200 violations: one mechanism must
 
 
 def run_case(r, obs):
+    del CONSTRUCTION_CHANGES[:]
     try:
         if r["k"] == "chain":
             run_chain(r, obs)
@@ -618,6 +641,9 @@ def run_case(r, obs):
         else:
             run_combine(r, obs)
     finally:
+        for msg in CONSTRUCTION_CHANGES[:1]:
+            obs.fail("construction-changes-component-variable", msg)
+        obs.count("constructions_checked")
         kept = []
         for v in obs.violations:
             _reported[v["mech"]] = _reported.get(v["mech"], 0) + 1
